@@ -915,6 +915,7 @@ package spec
 //@ define skey(s Schema) int = skeyOf(s.Ref.referenceURL, s.ID, s.Title, s.Description, s.Type, s.Properties, s.Items, s.AllOf, s.AnyOf, s.OneOf, s.Not)
 //@ define itemsDone(s Schema) bool = s.Items != nil ==> (s.Items.Schema != nil ==> esDone[skey(*s.Items.Schema)])
 //@        && (forall i int :: triggers(addr(s.Items.Schemas[i])) && (0 <= i && i < len(s.Items.Schemas) ==> esDone[skey(s.Items.Schemas[i])]))
+//@ define itemsTupleDone(s Schema) bool = s.Items != nil ==> (forall i int :: triggers(addr(s.Items.Schemas[i])) && (0 <= i && i < len(s.Items.Schemas) ==> esDone[skey(s.Items.Schemas[i])]))
 //@ define sliceDone(c []Schema, n int) bool = forall i int :: triggers(addr(c[i])) && (0 <= i && i < n ==> esDone[skey(c[i])])
 //@ define mapDone(m map[string]Schema) bool = forall k string :: triggers(has(m, k), m[k]) && (has(m, k) ==> esDone[skey(m[k])])
 //@ define notDone(s Schema) bool = s.Not != nil ==> esDone[skey(*s.Not)]
@@ -998,6 +999,46 @@ package spec
 //@   loop 6 invariant [C03,C02] old(strict(resolver)) ==> mapDone(cur_target.Definitions)
 //@   loop 6 invariant [C03,C02] old(strict(resolver)) ==> mapDone(cur_target.Properties)
 //@   loop 6 invariant [C03,C02] old(strict(resolver)) ==> mapDone(cur_target.PatternProperties)
+//@   loop 1 invariant [C03,C02] old(strict(resolver)) ==> itemsTupleDone(cur_target)
+//@   loop 1 invariant [C03,C02] old(strict(resolver)) ==> sliceDone(cur_target.AllOf, $i1)
+//@   loop 2 invariant [C03,C02] old(strict(resolver)) ==> itemsTupleDone(cur_target)
+//@   loop 2 invariant [C03,C02] old(strict(resolver)) ==> sliceDone(cur_target.AllOf, len(cur_target.AllOf))
+//@   loop 2 invariant [C03,C02] old(strict(resolver)) ==> sliceDone(cur_target.AnyOf, $i2)
+//@   loop 3 invariant [C03,C02] old(strict(resolver)) ==> itemsTupleDone(cur_target)
+//@   loop 3 invariant [C03,C02] old(strict(resolver)) ==> sliceDone(cur_target.AllOf, len(cur_target.AllOf))
+//@   loop 3 invariant [C03,C02] old(strict(resolver)) ==> sliceDone(cur_target.AnyOf, len(cur_target.AnyOf))
+//@   loop 3 invariant [C03,C02] old(strict(resolver)) ==> sliceDone(cur_target.OneOf, $i3)
+//@   loop 4 invariant [C03,C02] old(strict(resolver)) ==> itemsTupleDone(cur_target)
+//@   loop 4 invariant [C03,C02] old(strict(resolver)) ==> sliceDone(cur_target.AllOf, len(cur_target.AllOf))
+//@   loop 4 invariant [C03,C02] old(strict(resolver)) ==> sliceDone(cur_target.AnyOf, len(cur_target.AnyOf))
+//@   loop 4 invariant [C03,C02] old(strict(resolver)) ==> sliceDone(cur_target.OneOf, len(cur_target.OneOf))
+//@   loop 5 invariant [C03,C02] old(strict(resolver)) ==> itemsTupleDone(cur_target)
+//@   loop 5 invariant [C03,C02] old(strict(resolver)) ==> sliceDone(cur_target.AllOf, len(cur_target.AllOf))
+//@   loop 5 invariant [C03,C02] old(strict(resolver)) ==> sliceDone(cur_target.AnyOf, len(cur_target.AnyOf))
+//@   loop 5 invariant [C03,C02] old(strict(resolver)) ==> sliceDone(cur_target.OneOf, len(cur_target.OneOf))
+//@   loop 6 invariant [C03,C02] old(strict(resolver)) ==> itemsTupleDone(cur_target)
+//@   loop 6 invariant [C03,C02] old(strict(resolver)) ==> sliceDone(cur_target.AllOf, len(cur_target.AllOf))
+//@   loop 6 invariant [C03,C02] old(strict(resolver)) ==> sliceDone(cur_target.AnyOf, len(cur_target.AnyOf))
+//@   loop 6 invariant [C03,C02] old(strict(resolver)) ==> sliceDone(cur_target.OneOf, len(cur_target.OneOf))
+//@   ensures  [C03,C02] all-of-visited @@ old(strict(resolver)) && result1 == nil && old(refStringV(target.Ref)) == "" && !old(isRootV(target.Ref)) ==> sliceDone(result0.AllOf, len(result0.AllOf))
+//@   ensures  [C03,C02] any-of-visited @@ old(strict(resolver)) && result1 == nil && old(refStringV(target.Ref)) == "" && !old(isRootV(target.Ref)) ==> sliceDone(result0.AnyOf, len(result0.AnyOf))
+//@   ensures  [C03,C02] one-of-visited @@ old(strict(resolver)) && result1 == nil && old(refStringV(target.Ref)) == "" && !old(isRootV(target.Ref)) ==> sliceDone(result0.OneOf, len(result0.OneOf))
+//@   ensures  [C03,C02] items-tuple-visited @@ old(strict(resolver)) && result1 == nil && old(refStringV(target.Ref)) == "" && !old(isRootV(target.Ref)) ==> itemsTupleDone(*result0)
+//@   loop 1 invariant [C03,C02] old(strict(resolver)) ==> (cur_target.Items != nil && cur_target.Items.Schema != nil ==> esDone[skey(*cur_target.Items.Schema)])
+//@   loop 2 invariant [C03,C02] old(strict(resolver)) ==> (cur_target.Items != nil && cur_target.Items.Schema != nil ==> esDone[skey(*cur_target.Items.Schema)])
+//@   loop 3 invariant [C03,C02] old(strict(resolver)) ==> (cur_target.Items != nil && cur_target.Items.Schema != nil ==> esDone[skey(*cur_target.Items.Schema)])
+//@   loop 4 invariant [C03,C02] old(strict(resolver)) ==> (cur_target.Items != nil && cur_target.Items.Schema != nil ==> esDone[skey(*cur_target.Items.Schema)])
+//@   loop 4 invariant [C03,C02] old(strict(resolver)) ==> notDone(cur_target)
+//@   loop 5 invariant [C03,C02] old(strict(resolver)) ==> (cur_target.Items != nil && cur_target.Items.Schema != nil ==> esDone[skey(*cur_target.Items.Schema)])
+//@   loop 5 invariant [C03,C02] old(strict(resolver)) ==> notDone(cur_target)
+//@   loop 5 invariant [C03,C02] old(strict(resolver)) ==> addPropsDone(cur_target)
+//@   loop 6 invariant [C03,C02] old(strict(resolver)) ==> (cur_target.Items != nil && cur_target.Items.Schema != nil ==> esDone[skey(*cur_target.Items.Schema)])
+//@   loop 6 invariant [C03,C02] old(strict(resolver)) ==> notDone(cur_target)
+//@   loop 6 invariant [C03,C02] old(strict(resolver)) ==> addPropsDone(cur_target)
+//@   ensures  [C03,C02] items-visited @@ old(strict(resolver)) && result1 == nil && old(refStringV(target.Ref)) == "" && !old(isRootV(target.Ref)) ==> (result0.Items != nil && result0.Items.Schema != nil ==> esDone[skey(*result0.Items.Schema)])
+//@   ensures  [C03,C02] not-visited @@ old(strict(resolver)) && result1 == nil && old(refStringV(target.Ref)) == "" && !old(isRootV(target.Ref)) ==> notDone(*result0)
+//@   ensures  [C03,C02] additional-properties-visited @@ old(strict(resolver)) && result1 == nil && old(refStringV(target.Ref)) == "" && !old(isRootV(target.Ref)) ==> addPropsDone(*result0)
+//@   ensures  [C03,C02] additional-items-visited @@ old(strict(resolver)) && result1 == nil && old(refStringV(target.Ref)) == "" && !old(isRootV(target.Ref)) ==> addItemsDone(*result0)
 //@   ensures  [C09] skip-schemas-rebases-in-scope @@ old(resolver.options.SkipSchemas) && old(refStringV(target.Ref)) != "" && result1 == nil ==>
 //@               refStringV(result0.Ref) == denormStr(canonStr(normURI(old(refStringV(target.Ref)), scopeOf(target.ID, basePath))), resolver.context.basePath, resolver.context.rootID)
 //@   ensures  stack-kept @@ forall i int :: 0 <= i && i < len(parentRefs) ==> parentRefs[i] == old(parentRefs[i])
